@@ -25,6 +25,7 @@
 import GunYu.Proofs.RdbFanout
 import GunYu.Proofs.RdbFrame
 import GunYu.Proofs.Crc64Burst
+import GunYu.Model.RdbAlloc
 
 namespace GunYu.Props.C04
 open GunYu
@@ -404,5 +405,215 @@ example (i : Nat) (b : UInt8) (hi : i < exFile.length - 8) (hb : exFile[i]? ≠ 
   alteration_is_error_gen itemT itemT_good itemT_total 13 exFile 2 i b (by decide +kernel) (by decide +kernel) hi hb
 
 end Frame
+
+/-! ## Part 3 — Part 2 feeds Part 1: from the BYTES of the snapshot to the checkpoint
+
+  `feed` is what the goroutine of `rdb.ParseRdb` hands to the fan-out for input
+  `f`: one item per entry the frame parser gets through (entry `i` is named
+  `i`), then `Done` or `Err` — and after it anything (`junk`; after a footer
+  error ParseRdb sends `Err` and then `Done`). An input outside the modelled
+  grammar (`unsup`) has no `feed` here. -/
+section EndToEnd
+open GunYu.RdbFanout
+
+def feed (it : RdbFrame.Rd RdbFrame.Item) (maxVer : Nat) (f : Bytes) (junk : List (Item Nat)) : Option (List (Item Nat)) :=
+  match RdbFrame.parseWith it maxVer f with
+  | .done n => some (parserOutput (List.range n) .done junk)
+  | .err n => some (parserOutput (List.range n) .err junk)
+  | _ => none
+
+/-- **from bytes to checkpoint**: for every input, every worker count, pipe
+    size, routing and EVERY schedule of parse / distribute / apply / fail /
+    cancel events: the checkpoint is written, or nil returned, only if the input
+    parses to `Done` and every one of its entries was applied. -/
+theorem recorded_only_if_parsed_and_applied (it : RdbFrame.Rd RdbFrame.Item) (maxVer : Nat) (f : Bytes)
+    (junk items : List (Item Nat)) (hfeed : feed it maxVer f junk = some items)
+    (c : Cfg Nat) (hn : 0 < c.n) (sched : List Ev)
+    (h : (run c (init items) sched).checkpoint = true ∨ (run c (init items) sched).ret = some .ok) :
+    ∃ n, RdbFrame.parseWith it maxVer f = .done n ∧ ∀ a, a < n → a ∈ (run c (init items) sched).applied := by
+  unfold feed at hfeed
+  cases hp : RdbFrame.parseWith it maxVer f with
+  | done n =>
+    rw [hp] at hfeed; simp only [Option.some.injEq] at hfeed; subst hfeed
+    refine ⟨n, rfl, ?_⟩
+    intro a ha
+    rcases h with h | h
+    · exact (no_checkpoint_unless_all_applied c hn _ _ _ sched h).2 a (List.mem_range.mpr ha)
+    · exact (ok_only_if_all_applied c hn _ _ _ sched h).2 a (List.mem_range.mpr ha)
+  | err n =>
+    rw [hp] at hfeed; simp only [Option.some.injEq] at hfeed; subst hfeed
+    rcases h with h | h
+    · exact absurd (no_checkpoint_unless_all_applied c hn _ _ _ sched h).1 (by simp)
+    · exact absurd (ok_only_if_all_applied c hn _ _ _ sched h).1 (by simp)
+  | unsup => rw [hp] at hfeed; cases hfeed
+  | fuelOut => rw [hp] at hfeed; cases hfeed
+
+/-- **a truncated snapshot is never recorded**: whatever prefix of an accepted
+    snapshot arrives, the parser hands the fan-out an `Err`, and in NO schedule is
+    the checkpoint written or nil returned. -/
+theorem truncated_never_recorded (it : RdbFrame.Rd RdbFrame.Item) (g : RdbFrame.GoodItem it) (maxVer : Nat) (f : Bytes) (n : Nat)
+    (hf : RdbFrame.parseWith it maxVer f = .done n) (k : Nat) (hk : k < f.length) (junk : List (Item Nat)) :
+    ∃ items, feed it maxVer (f.take k) junk = some items ∧
+      ∀ (c : Cfg Nat), 0 < c.n → ∀ sched : List Ev,
+        (run c (init items) sched).checkpoint = false ∧ (run c (init items) sched).ret ≠ some .ok := by
+  obtain ⟨m, hm⟩ := truncation_errors_gen it g maxVer f n hf k hk
+  refine ⟨parserOutput (List.range m) .err junk, by simp [feed, hm], ?_⟩
+  intro c hn sched
+  constructor
+  · cases hc : (run c (init (parserOutput (List.range m) .err junk)) sched).checkpoint with
+    | false => rfl
+    | true => exact absurd (no_checkpoint_unless_all_applied c hn _ _ _ sched hc).1 (by simp)
+  · intro hr
+    exact absurd (ok_only_if_all_applied c hn _ _ _ sched hr).1 (by simp)
+
+/-- **an altered snapshot is never recorded** (checksummed file, one byte among
+    the covered bytes changed, item reader that decides every input): the parser
+    hands the fan-out an `Err`; no schedule writes the checkpoint. -/
+theorem altered_never_recorded (it : RdbFrame.Rd RdbFrame.Item) (g : RdbFrame.GoodItem it) (ht : RdbFrame.Total it)
+    (maxVer : Nat) (f : Bytes) (n i : Nat) (b : UInt8)
+    (hf : RdbFrame.parseWith it maxVer f = .done n) (hnz : Rdb.ofLE (footerOf f) ≠ 0)
+    (hi : i < f.length - 8) (hb : f[i]? ≠ some b) (junk : List (Item Nat)) :
+    ∃ items, feed it maxVer (f.set i b) junk = some items ∧
+      ∀ (c : Cfg Nat), 0 < c.n → ∀ sched : List Ev,
+        (run c (init items) sched).checkpoint = false ∧ (run c (init items) sched).ret ≠ some .ok := by
+  obtain ⟨m, hm⟩ := alteration_is_error_gen it g ht maxVer f n i b hf hnz hi hb
+  refine ⟨parserOutput (List.range m) .err junk, by simp [feed, hm], ?_⟩
+  intro c hn sched
+  constructor
+  · cases hc : (run c (init (parserOutput (List.range m) .err junk)) sched).checkpoint with
+    | false => rfl
+    | true => exact absurd (no_checkpoint_unless_all_applied c hn _ _ _ sched hc).1 (by simp)
+  · intro hr
+    exact absurd (ok_only_if_all_applied c hn _ _ _ sched hr).1 (by simp)
+
+/-- for the modelled grammar (where `unsup` is a third outcome): an altered file
+    that the parser does decide is never recorded -/
+theorem altered_never_recorded_model (maxVer : Nat) (f : Bytes) (n i : Nat) (b : UInt8)
+    (hf : RdbFrame.parse maxVer f = .done n) (hnz : Rdb.ofLE (footerOf f) ≠ 0)
+    (hi : i < f.length - 8) (hb : f[i]? ≠ some b) (junk items : List (Item Nat))
+    (hfeed : feed RdbFrame.item maxVer (f.set i b) junk = some items)
+    (c : Cfg Nat) (hn : 0 < c.n) (sched : List Ev) :
+    (run c (init items) sched).checkpoint = false ∧ (run c (init items) sched).ret ≠ some .ok := by
+  have hnd := alteration_detected maxVer f n i b hf hnz hi hb
+  constructor
+  · cases hc : (run c (init items) sched).checkpoint with
+    | false => rfl
+    | true =>
+      obtain ⟨m, hm, _⟩ := recorded_only_if_parsed_and_applied _ maxVer _ junk items hfeed c hn sched (Or.inl hc)
+      exact absurd hm (hnd m)
+  · intro hr
+    obtain ⟨m, hm, _⟩ := recorded_only_if_parsed_and_applied _ maxVer _ junk items hfeed c hn sched (Or.inr hr)
+    exact absurd hm (hnd m)
+
+/-! non-vacuity: the example file of Part 2 through the example schedules of Part 1 -/
+example : feed RdbFrame.item 13 exFile [] = some (parserOutput [0, 1] .done []) := by decide +kernel
+example : feed RdbFrame.item 13 (exFile.take 20) [] = some (parserOutput [0] .err []) := by decide +kernel
+example : feed itemT 13 (exFile.set 19 3) [Item.term .done] = some (parserOutput [0] .err [Item.term .done]) := by
+  decide +kernel
+/-- the intact file, a complete schedule: recorded, both entries applied -/
+example : (run exCfg (init (parserOutput [0, 1] .done []))
+    [.parse, .parse, .dist, .dist, .parse, .work 0, .work 1, .dist, .workClosed 0, .workClosed 1,
+     .collectD, .collectW 0, .collectW 1, .finish true]).checkpoint = true := by decide
+/-- the truncated file (one entry, then Err): the same eagerness never records it -/
+example : (run exCfg (init (parserOutput [0] .err []))
+    [.parse, .parse, .dist, .dist, .work 0, .workClosed 0, .workClosed 1,
+     .collectD, .collectW 0, .collectW 1, .finish true]).checkpoint = false := by decide
+
+end EndToEnd
+
+/-! ## Part 4 — memory: what a length / count field of the input can make the parser allocate
+
+  (first item of `partial`; see `alloc_bounded_partial` for what is and what is not covered) -/
+section Alloc
+open GunYu.RdbAlloc
+
+theorem grow_le (step n avail : Nat) :
+    ∀ (fuel len : Nat), len ≤ avail → len ≤ n → (grow step n avail fuel len).1 ≤ avail + step ∧ (grow step n avail fuel len).1 ≤ n
+  | 0, len, h1, h2 => by simp only [grow]; omega
+  | fuel+1, len, h1, h2 => by
+    simp only [grow]
+    split
+    · split
+      · exact grow_le step n avail fuel _ (by assumption) (by omega)
+      · simp only; omega
+    · simp only; omega
+
+/-- **ReadBytes (D22)**: whatever length `n` a damaged field announces, the buffer
+    never exceeds the bytes that are really there by more than one step (64 MiB),
+    and never exceeds `n` -/
+theorem readBytes_alloc_bounded (step n avail : Nat) :
+    (readBytes step n avail).1 ≤ avail + step ∧ (readBytes step n avail).1 ≤ n := by
+  unfold readBytes
+  split
+  · simp only; omega
+  · exact grow_le step n avail (n + 1) 0 (by omega) (by omega)
+
+/-- success means all `n` bytes were there, and then exactly `n` are held -/
+theorem grow_ok (step n avail : Nat) :
+    ∀ (fuel len : Nat), len ≤ avail → (grow step n avail fuel len).2 = true →
+      n ≤ avail ∧ (len ≤ n → (grow step n avail fuel len).1 = n)
+  | 0, len, h1, h => by simp only [grow, decide_eq_true_eq] at h ⊢; exact ⟨by omega, fun h' => by omega⟩
+  | fuel+1, len, h1, h => by
+    simp only [grow] at h ⊢
+    split at h
+    · rename_i hlt
+      split at h
+      · rename_i hle
+        obtain ⟨a, b⟩ := grow_ok step n avail fuel _ hle h
+        refine ⟨a, fun _ => ?_⟩
+        simp only [hlt, hle, if_true]
+        exact b (by omega)
+      · cases h
+    · exact ⟨by omega, fun h' => by simp only [*, if_false]; omega⟩
+
+theorem readBytes_ok (step n avail : Nat) (h : (readBytes step n avail).2 = true) :
+    n ≤ avail ∧ (readBytes step n avail).1 = n := by
+  unfold readBytes at h ⊢
+  split
+  · rename_i hs; simp only [hs, if_true, decide_eq_true_eq] at h; exact ⟨h, rfl⟩
+  · rename_i hs
+    simp only [hs, if_false] at h
+    obtain ⟨a, b⟩ := grow_ok step n avail (n + 1) 0 (by omega) h
+    exact ⟨a, b (by omega)⟩
+
+theorem lzfAlloc_bounded (outlen : Int) (inBytes c : Nat) (h : lzfAlloc outlen inBytes = some c) : c ≤ 264 * inBytes := by
+  unfold lzfAlloc at h
+  split at h
+  · cases h
+  · simp only [Option.some.injEq, Int.ofNat_eq_natCast] at *; omega
+
+theorem fieldsAlloc_bounded (numFields : Int) (lp c : Nat) (h : fieldsAlloc numFields lp = some c) : c ≤ lp := by
+  unfold fieldsAlloc at h
+  split at h
+  · cases h
+  · simp only [Option.some.injEq, Int.ofNat_eq_natCast] at *; omega
+
+/-- **memory, as far as a theorem reaches** (`_partial`): each of the three buffers
+    that pkg/rdb sizes by a field of the input is bounded by a linear function of
+    the bytes that are actually present (+ one 64 MiB step for ReadBytes) — no
+    field value, however large, asks for more.
+    NOT covered (the item stays under `partial`): that these three are ALL the
+    input-sized allocations of the real parser and decoders (found by review and
+    by the damaged-input sweep: D22, D32), the allocator's rounding, memory held
+    across entries by the pipeline, and wall-clock time — `parse_total` bounds
+    the steps of the frame MODEL by the input length; a loop of a value decoder
+    that does not advance (D23) is outside it. -/
+theorem alloc_bounded_partial (step n avail : Nat) (outlen numFields : Int) (inBytes lp : Nat) :
+    (readBytes step n avail).1 ≤ avail + step ∧
+    (∀ c, lzfAlloc outlen inBytes = some c → c ≤ 264 * inBytes) ∧
+    (∀ c, fieldsAlloc numFields lp = some c → c ≤ lp) :=
+  ⟨(readBytes_alloc_bounded step n avail).1, fun c h => lzfAlloc_bounded outlen inBytes c h,
+   fun c h => fieldsAlloc_bounded numFields lp c h⟩
+
+/-! non-vacuity: the D22 witness (a 2^40 length over 10 bytes), an honest large string, the D32 witness -/
+example : readBytes 67108864 (2 ^ 40) 10 = (67108864, false) := by decide +kernel
+example : readBytes 64 200 200 = (200, true) := by decide
+example : readBytes 64 200 150 = (192, false) := by decide
+example : readBytes 64 10 3 = (10, false) := by decide
+example : fieldsAlloc 1768326401 46 = none := by decide
+example : fieldsAlloc 1 46 = some 1 := by decide
+example : lzfAlloc 40 5 = some 40 ∧ lzfAlloc 1321 5 = none := by decide
+
+end Alloc
 
 end GunYu.Props.C04
